@@ -14,7 +14,33 @@ macro_rules! scen {
     };
 }
 
+/// Opaque-scalar scenario bodies are written once over a type alias `S` and included twice:
+/// `S = SymU` (symbolic run) and `S = Cu` (native replay in a concrete random model).
+macro_rules! ubody {
+    ($m:ident, $file:literal) => {
+        pub mod $m {
+            pub mod sym {
+                #[allow(dead_code)]
+                pub type S = crate::opq::SymU;
+                include!($file);
+            }
+            pub mod conc {
+                #[allow(dead_code)]
+                pub type S = crate::opq::Cu;
+                include!($file);
+            }
+            pub fn register(v: &mut Vec<crate::explore::Scenario>) {
+                for ((name, prop, tier, funcs, fs), (name2, _, _, _, fc)) in sym::list().into_iter().zip(conc::list()) {
+                    assert_eq!(name, name2);
+                    v.push(crate::explore::Scenario { name, prop, tier, funcs, sym: fs, f64_: None, cn: Some(fc), max_paths: 8192, timeout: None });
+                }
+            }
+        }
+    };
+}
+ubody!(c02u, "u_c02.rs");
 pub mod c01;
+pub mod c02;
 pub mod c04;
 pub mod c05;
 pub mod c06;
@@ -32,6 +58,8 @@ pub mod c16;
 pub fn all() -> Vec<Scenario> {
     let mut v = vec![];
     c01::register(&mut v);
+    c02u::register(&mut v);
+    c02::register(&mut v);
     c04::register(&mut v);
     c05::register(&mut v);
     c06::register(&mut v);
